@@ -130,6 +130,10 @@ func Build(repo, verifDir, scratch string, race bool) (*Result, error) {
 	}
 	for i, file := range scen.CallSites {
 		var tests strings.Builder
+		if i == 0 {
+			// declared first in the first file: the real runner executes it before all others
+			fmt.Fprintf(&tests, "func Test0Warm(t *testing.T) { runTop(t, %q) }\n\n", "Test0Warm")
+		}
 		for _, tn := range scen.Pool[i] {
 			fmt.Fprintf(&tests, "func %s(t *testing.T) { runTop(t, %q) }\n\n", tn, tn)
 		}
